@@ -367,7 +367,7 @@ def seam_triple(r, sp):
 TRIPLE_MODES = ["uniform", "uniform", "uniform", "mixed", "bound", "coincident", "ulp", "small", "small", "neg", "seam", "seam",
                 "nonunit"]
 # quaternion scale factors that keep |norm - 1| < MAX_QUATERNION_NORM_ERROR = 1e-9 (satisfiesBounds) — the first three
-# push the squared norm below the clamp threshold 1 - 1e-9 (F27), the others do not
+# push the squared norm below the clamp threshold 1 - 1e-9 (F76), the others do not
 NONUNIT_SCALES = [1 - 0.75e-9, 1 - 0.6e-9, 1 - 0.9e-9, 1 - 0.4e-9, 1 + 0.9e-9, 1 + 0.3e-9]
 
 
